@@ -18,52 +18,53 @@ macro_rules! m_harness {
     };
 }
 
-m_harness! {
-    #[kani::unwind(5)]
-    fn c08_split_by_security_3() {
-        // three rows, each of security "A" or "B" (symbolic), identified by read_index
-        let s0 = ks::any_bool(); let s1 = ks::any_bool(); let s2 = ks::any_bool();
-        let name = |b: bool| if b { "A" } else { "B" };
-        let rows = vec![
-            tx_sec(name(s0), aff(0), date(10), 0, buy(pos(1, 0), gez(1, 0), gez(0, 0), cad(), None)),
-            tx_sec(name(s1), aff(0), date(10), 1, buy(pos(1, 0), gez(1, 0), gez(0, 0), cad(), None)),
-            tx_sec(name(s2), aff(0), date(10), 2, buy(pos(1, 0), gez(1, 0), gez(0, 0), cad(), None)),
-        ];
-        let m = split_txs_by_security(rows);
-        vcover!("split");
-        let na = (s0 as usize) + (s1 as usize) + (s2 as usize);
-        let nb = 3 - na;
-        // every security present has a bucket with exactly its rows; no empty buckets, no others
-        assert!(m.len() == (na > 0) as usize + (nb > 0) as usize);
-        match m.get("A") {
-            Some(v) => {
-                assert!(v.len() == na && na > 0);
-                // rows of A, in input order
-                let mut prev: i64 = -1;
-                for t in v.iter() {
-                    assert!(t.security == "A");
-                    let i = t.read_index;
-                    assert!((i == 0 && s0) || (i == 1 && s1) || (i == 2 && s2));
-                    assert!((i as i64) > prev);
-                    prev = i as i64;
-                }
+// Which security each of the three rows belongs to is fixed per harness (a
+// symbolic choice makes the per-security Vecs symbolic-size heap objects: 23 GB
+// in CBMC); the 8 patterns are enumerated below, and inside each the rows'
+// dates, read indices and share counts are symbolic.
+fn split3(s0: bool, s1: bool, s2: bool) {
+    let name = |b: bool| if b { "A" } else { "B" };
+    let i0 = any_in(0, 1000) as u32; let i1 = any_in(0, 1000) as u32; let i2 = any_in(0, 1000) as u32;
+    ks::assume(i0 < i1 && i1 < i2);
+    let d0 = any_in(1, 300); let d1 = any_in(1, 300); let d2 = any_in(1, 300);
+    let rows = vec![
+        tx_sec(name(s0), aff(0), date(d0), i0, buy(pos(1, 0), gez(1, 0), gez(0, 0), cad(), None)),
+        tx_sec(name(s1), aff(0), date(d1), i1, buy(pos(1, 0), gez(1, 0), gez(0, 0), cad(), None)),
+        tx_sec(name(s2), aff(0), date(d2), i2, buy(pos(1, 0), gez(1, 0), gez(0, 0), cad(), None)),
+    ];
+    let m = split_txs_by_security(rows);
+    vcover!("split");
+    let na = (s0 as usize) + (s1 as usize) + (s2 as usize);
+    let nb = 3 - na;
+    // every security present has a bucket with exactly its rows; no empty buckets, no others
+    assert!(m.len() == (na > 0) as usize + (nb > 0) as usize);
+    let check = |sec: &str, want_a: bool, cnt: usize| match m.get(sec) {
+        Some(v) => {
+            assert!(v.len() == cnt && cnt > 0);
+            let mut prev: i64 = -1;
+            for t in v.iter() {
+                assert!(t.security == sec);
+                let i = t.read_index;
+                // it is one of this security's rows, with its own date, in input order
+                assert!((i == i0 && s0 == want_a && t.settlement_date == date(d0))
+                    || (i == i1 && s1 == want_a && t.settlement_date == date(d1))
+                    || (i == i2 && s2 == want_a && t.settlement_date == date(d2)));
+                assert!((i as i64) > prev);
+                prev = i as i64;
             }
-            None => assert!(na == 0),
         }
-        match m.get("B") {
-            Some(v) => {
-                assert!(v.len() == nb && nb > 0);
-                let mut prev: i64 = -1;
-                for t in v.iter() {
-                    assert!(t.security == "B");
-                    let i = t.read_index;
-                    assert!((i == 0 && !s0) || (i == 1 && !s1) || (i == 2 && !s2));
-                    assert!((i as i64) > prev);
-                    prev = i as i64;
-                }
-            }
-            None => assert!(nb == 0),
-        }
-        core::mem::forget(m);
-    }
+        None => assert!(cnt == 0),
+    };
+    check("A", true, na);
+    check("B", false, nb);
+    core::mem::forget(m);
 }
+
+m_harness! { #[kani::unwind(5)] fn c08_split_by_security_aab() { split3(true, true, false); } }
+m_harness! { #[kani::unwind(5)] fn c08_split_by_security_aba() { split3(true, false, true); } }
+m_harness! { #[kani::unwind(5)] fn c08_split_by_security_baa() { split3(false, true, true); } }
+m_harness! { #[kani::unwind(5)] fn c08_split_by_security_aaa() { split3(true, true, true); } }
+m_harness! { #[kani::unwind(5)] fn c08_split_by_security_abb() { split3(true, false, false); } }
+m_harness! { #[kani::unwind(5)] fn c08_split_by_security_bab() { split3(false, true, false); } }
+m_harness! { #[kani::unwind(5)] fn c08_split_by_security_bba() { split3(false, false, true); } }
+m_harness! { #[kani::unwind(5)] fn c08_split_by_security_bbb() { split3(false, false, false); } }
